@@ -31,14 +31,19 @@ from pywbem._tupletree import xml_to_tupletree_sax
 
 warnings.simplefilter('ignore')
 
-R = Run('round trip tocimxmlstr -> minidom -> SAX -> TupleParser (+ second round trip, + independent etree '
-        'reference decoding of the wire form) over: all strings of length <= 3 (quick: <= 2 everywhere, 3 in the '
-        'property/CDATA/embedded contexts; thorough: 4 in one) from a 12-char alphabet (blank TAB LF CR < > & ] " '
-        'e-acute astral a) in 12 value contexts incl. CDATA mode and embedded depth 1..3; 15 CIM types x boundary '
-        'values x {scalar, NULL, empty array, array with NULL} x {property, qualifier, qualifier declaration, '
-        'keybinding, PARAMVALUE, VALUE}; paths x {host,namespace} x nested reference keys depth <= 3; all '
-        'class_origin/propagated/array_size/reference_class/flavor/scope combinations; name case and child order '
-        'permutations; embedded instance/class chains of depth 0..3; seeded random object trees')
+R = Run('tocimxmlstr -> minidom -> SAX -> TupleParser round trip, second round trip (same object, byte-identical '
+        'XML) and independent etree reference decoding of the wire form, over: every string of length <= 2 from a '
+        '12-char alphabet (a blank TAB LF CR < > & ] " e-acute astral) in 15 value contexts (property, array, '
+        'qualifier, qualifier declaration, keybinding, PARAMVALUE, VALUE, instance+path, embedded depth 1..3, CDATA '
+        'mode), length 3 in the property/CDATA/embedded contexts (thorough: all contexts, length 4 in property and '
+        'CDATA) + seeded strings over 34 chars; 14 value types x boundary values (INF/NaN/-0.0/denormals) x '
+        '{scalar, NULL, empty, 1, all, NULL-only, with NULL} x {property, qualifier, qualifier declaration, '
+        'PARAMVALUE, VALUE, keybinding} + seeded float32/float64 bit patterns; instance/class paths x 6 hosts x 6 '
+        'namespaces x nested reference keys depth 0..3, mixed host/namespace at each level, ignore_host/namespace; '
+        'all 3^5 qualifier flavor/propagated, 3^4 x scopes and all 2^7 scope subsets; property kinds x class_origin '
+        'x propagated x array_size x reference_class x qualifiers; 4 parameter kinds; methods; classes; instances '
+        'with 4 path kinds; name case and child order permutations; embedded instance/class chains depth 0..3 x '
+        'array x entity/CDATA; seeded random object trees (quick 500, thorough 16000)')
 
 TP = TupleParser()
 
@@ -61,6 +66,9 @@ FIELDS = {
     'pval': ('name', 'type', 'value'),
     'val': ('type', 'value'),
 }
+KINDS = set(FIELDS) | {'null', 'nopath', 'array', 'seq', 'int', 'float', 'BADCLASS', 'boolean', 'string', 'char16',
+                       'uint8', 'sint8', 'uint16', 'sint16', 'uint32', 'sint32', 'uint64', 'sint64', 'real32',
+                       'real64', 'datetime'}
 NULL = ('null',)
 NOPATH = ('nopath',)
 INT_RANGE = {'uint8': (0, 2**8 - 1), 'sint8': (-2**7, 2**7 - 1), 'uint16': (0, 2**16 - 1),
@@ -543,7 +551,7 @@ def report(stage, diffs, desc):
     for slot, exp, obs in diffs:
         vid = known_leaf(slot, exp, obs)
         if vid is None:
-            kind = exp[0] if isinstance(exp, tuple) and exp and isinstance(exp[0], str) else type(exp).__name__
+            kind = exp[0] if isinstance(exp, tuple) and exp and exp[0] in KINDS else type(exp).__name__
             vid = f'{stage}-{slot}-differs[{kind}]'
         violation(vid, slot=slot, expected=short(exp), observed=short(obs), **desc)
 
@@ -648,6 +656,8 @@ def check(key, x0, codec=Codec, expected=None, enc=None, **desc):
     try:
         xml0 = (enc or codec.enc)(x0)
     except Exception as e:  # pylint: disable=broad-except
+        if isinstance(e, (ValueError, TypeError)) and embedded_with_path(x0):
+            return      # refusing what DSP0201 cannot represent is "not accepted for transmission"
         violation('encode-raises-' + type(e).__name__, error=str(e)[:200], **desc)
         return
     desc['xml'] = xml0[:600]
@@ -845,7 +855,7 @@ def family_strings(rnd):
                 which = ('prop', 'cdata', 'emb', 'rest') if thorough else ('prop', 'cdata') + \
                     (('emb',) if ']' in s or '&' in s or '\r' in s else ())
             else:
-                which = ('prop',)
+                which = ('prop', 'cdata')
             for ctx, obj, codec in string_contexts(s, which):
                 if ctx.endswith('-cdata'):
                     with cdata():
@@ -853,7 +863,7 @@ def family_strings(rnd):
                 else:
                     check(('str', ctx, s), obj, codec, string=s)
     # seeded samples over a wider alphabet, longer strings
-    for i in range(4000 if thorough else 400):
+    for i in range(8000 if thorough else 400):
         s = ''.join(rnd.choice(WIDE) for _ in range(rnd.randint(1, 12)))
         which = ('prop', 'cdata', 'emb') if i % 4 else ('prop', 'cdata', 'emb', 'rest')
         for ctx, obj, codec in string_contexts(s, which):
@@ -902,7 +912,7 @@ def family_typed_values(rnd):
             if not arr and v is not None and t not in ('string', 'char16'):
                 check(('key',) + key, CIMInstanceName('C', [('K', typed(t, v))]), type=t, value=repr(v))
     # seeded reals: random float32 and float64 bit patterns
-    n = 3000 if R.tier == 'thorough' else 300
+    n = 20000 if R.tier == 'thorough' else 300
     for i in range(n):
         b32 = rnd.getrandbits(32)
         b64 = rnd.getrandbits(64)
@@ -1271,7 +1281,7 @@ def rnd_class(rnd, depth):
 
 
 def family_random(rnd):
-    n = 6000 if R.tier == 'thorough' else 500
+    n = 16000 if R.tier == 'thorough' else 500
     for i in range(n):
         depth = i % 4
         obj = rnd_inst(rnd, depth, top=True) if i % 2 else rnd_class(rnd, depth)
